@@ -133,6 +133,7 @@ PLAN["C13"] = {
         {"name": "TestDateTimeRoundTrip", "quick": (400000, 8), "thorough": (16000000, 16)},
         {"name": "TestJSONRoundTrip", "quick": (200000, 4), "thorough": (8000000, 16)},
         {"name": "TestEngineFieldDatetime", "quick": (24000, 4), "thorough": (1600000, 16)},
+        {"name": "TestEngineFieldReparse", "quick": (16000, 4), "thorough": (800000, 16)},
     ],
     "budget": {"quick": 600, "thorough": 5400},
     "rule": "(a) decimals of any sign, scale 0-30 and magnitude to 10^+-400 (plain and exponent notation, trailing zeros, -0): "
@@ -646,7 +647,7 @@ RULE_ADDENDA = {
     "C08": "Process history: every scenario of the recorded digest list is executed again alone, first thing in a fresh process that generates nothing, and its digest must equal the one from the generating process.",
     "C10": "Faults also remove the node the parent run is paused on or strip its router. Small MaxResumesPerSession values are drawn: once the session has waited that often any resume must end it as failed.",
     "C12": "TemplateValue of every template must agree with Template of the trimmed text.",
-    "C13": "Engine level (TestEngineFieldDatetime): an instant rendered by format_datetime in the session's formats and stored by set_contact_field in the same sprint is the same instant (to the rendered precision) for every pair of environment and contact timezone.",
+    "C13": "Engine level (TestEngineFieldDatetime): an instant rendered by format_datetime in the session's formats and stored by set_contact_field in the same sprint is the same instant (to the rendered precision) for every pair of environment and contact timezone; TestEngineFieldReparse: the same text set again after the contact's timezone changed denotes, and is stored as, the instant it spells in the new zone.",
     "C15": "A query parsed under an environment differing only in timezone must give the same verdict; number/date fields may hold untyped text (absent for queries).",
     "C17": "TestContextReferences: 19 legacy context references migrated under both RawDates options and in three template forms must evaluate like the documented new-syntax equivalent.",
     "C18": "Cases may start under other settings and be resumed (live or reloaded) with refreshed environment/contact, and may send to all URNs with a channel template (only non-templated messages are judged).",
